@@ -358,7 +358,11 @@ def run(ctx):
                                          "impl": o, "model": m})
     dist["mdvd_two_valued_not_compared_with_model"] = skipped_model
     # ---- SAMI -----------------------------------------------------------------------------------
-    sami_cases = []
+    # boundary grid first: a cue ending inside millisecond 0, zero-length cues, touching / non-touching ms, last ms of the day
+    sami_cases = [[[(0, 900), (5000000, 6000000)]], [[(0, 0), (0, 1000)]], [[(0, 999), (999, 1000), (1000, 1000)]],
+                  [[(1000, 2000), (2000, 3000), (3001, 4000), (4999, 5000)]], [[(500, 1500.5), (1500.5, 86399999999)]],
+                  [[(0, 900), (5000000, 6000000)], [(0, 40000), (40000, 80000)]],
+                  [[(1000000.25, 1999999.75), (2000000.0, 2000999.9999)]]]
     for i in range(ctx.n(500, 15000)):
         nl = rng.choice([1, 1, 2, 3])
         if nl == 1:
